@@ -105,7 +105,7 @@ def explicit_block(ctx, rng):
         for i in range(s):
             impl_stages += [float(v) for v in np.reshape(stg[..., i], (-1,))]
         scale = max([1.0] + [abs(float(v)) for v in m_s] + [abs(float(v)) for v in y])
-        okc = close(np.reshape(dS, (-1,)), m_d, scale * abs(float(h)) * s, T) and close(np.reshape(frhs, (-1,)), m_f, scale * s, T) and close(impl_stages, m_s, scale * s, T)
+        okc = close(np.reshape(dS, (-1,)), m_d, scale * abs(float(h)) * s, T) and close(np.reshape(frhs, (-1,)), m_f, max([scale] + [abs(ff(v)) for v in m_f]) * s, T) and close(impl_stages, m_s, scale * s, T)
         if est is not None:
             okc = okc and close(np.reshape(est, (-1,)), m_e, scale * s, T)
         ctx.corr("rk-step", okc and dT == float(T(float(h))), dict(inp, impl_dState=[float(v) for v in np.reshape(dS, (-1,))], model_dState=[float(v) for v in m_d]))
